@@ -128,6 +128,19 @@ func Load(repo string, overlay map[string][]byte, goarch string) (*Prog, error) 
 		}
 	}
 	sort.Slice(p.ModFuncs, func(i, j int) bool { return p.ModFuncs[i].String() < p.ModFuncs[j].String() })
+	// the analyses treat go/ssa's synthetic recover block as dead: that is only
+	// valid while the module never recovers from panics.
+	for _, fn := range p.ModFuncs {
+		for _, b := range fn.Blocks {
+			for _, in := range b.Instrs {
+				if ci, ok := in.(ssa.CallInstruction); ok {
+					if bi, ok := ci.Common().Value.(*ssa.Builtin); ok && bi.Name() == "recover" {
+						return nil, fmt.Errorf("%s calls recover(): the analyses assume the module never recovers from panics", fn)
+					}
+				}
+			}
+		}
+	}
 	return p, nil
 }
 
